@@ -69,14 +69,26 @@ def _worker_run(arg):
         return {"harness_error": f"{type(e).__name__}: {e}", "traceback": traceback.format_exc(), "job": job.get("label")}
 
 
-def run_jobs(modname, jobs, nproc=None):
+def _worker_preflight(arg):
+    modname, tier, seed = arg
+    import importlib
+
+    mod = importlib.import_module(modname)
+    pre = getattr(mod, "preflight", None)
+    return pre(tier, seed) if pre else {}
+
+
+def run_jobs(modname, jobs, nproc=None, tier="quick", seed=0):
+    """The parent process never touches stabilize (no threads, no connections
+    before fork); preflight and every job run in pool workers."""
     nproc = nproc or int(os.environ.get("VERIF_JOBS", "0")) or min(16, os.cpu_count() or 4)
-    nproc = max(1, min(nproc, len(jobs)))
-    if nproc == 1:
-        return [_worker_run((modname, j)) for j in jobs]
+    nproc = max(1, min(nproc, max(1, len(jobs))))
     ctx = mp.get_context("fork")
     with ctx.Pool(nproc, maxtasksperchild=None) as pool:
-        return list(pool.imap_unordered(_worker_run, [(modname, j) for j in jobs], chunksize=1))
+        pre_async = pool.apply_async(_worker_preflight, ((modname, tier, seed),))
+        results = list(pool.imap_unordered(_worker_run, [(modname, j) for j in jobs], chunksize=1))
+        pre_info = pre_async.get()
+    return results, pre_info
 
 
 def main(mod):
@@ -97,12 +109,10 @@ def main(mod):
         sys.exit(1 if out.get("violations") else 0)
 
     t0 = time.time()
-    pre = getattr(mod, "preflight", None)
-    pre_info = pre(args.tier, seed) if pre else {}
     jobs = mod.jobs(args.tier, seed)
     if args.only:
         jobs = [j for j in jobs if args.only in str(j.get("label"))]
-    results = run_jobs(mod.__name__, jobs, args.jobs)
+    results, pre_info = run_jobs(mod.__name__, jobs, args.jobs, args.tier, seed)
     findings = load_findings(prop)
     harness_errors = [r for r in results if "harness_error" in r]
     new_viol, known_hits = [], {}
